@@ -1,4 +1,5 @@
 # -*- coding: utf-8 -*-
+import copy
 import itertools
 from contextlib import contextmanager
 from typing import TYPE_CHECKING, Any, Callable, Dict, List, Optional, Set, Tuple
@@ -32,6 +33,18 @@ class TraceStack:
     def _make_initer_from_val(init_val: Any) -> Callable[[], Any]:
         return lambda: init_val
 
+    @staticmethod
+    def _make_fresh_copy_initer(init_val: Any) -> Callable[[], Any]:
+        # every push resets the field to a fresh copy of the value it was declared with (not to an empty
+        # instance of its type: `defaultdict(list)` would lose its factory, `[1, 2]` its contents, and a
+        # type that cannot be called without arguments would make every push fail half-way)
+        try:
+            declared = copy.deepcopy(init_val)
+            copy.deepcopy(declared)
+        except Exception:
+            return type(init_val)
+        return lambda: copy.deepcopy(declared)
+
     @contextmanager
     def register_stack_state(self):
         self._registering_stack_state_context = True
@@ -53,7 +66,9 @@ class TraceStack:
                     self._make_initer_from_val(init_val)
                 )
             else:
-                self._stack_item_initializers[stack_item_name] = type(stack_item)
+                self._stack_item_initializers[stack_item_name] = (
+                    self._make_fresh_copy_initer(stack_item)
+                )
         for i, stack_item_name in enumerate(self._stack_item_names()):
             self._field_mapping[stack_item_name] = i
 
@@ -62,8 +77,10 @@ class TraceStack:
         assert self._registering_stack_state_context
         original_state = set(self._manager.__dict__.keys())
         yield
-        self._stack_items_with_manual_initialization = set(
-            self._manager.__dict__.keys() - original_state
+        # (a further block adds to the fields declared by earlier ones)
+        self._stack_items_with_manual_initialization = (
+            self._stack_items_with_manual_initialization
+            | set(self._manager.__dict__.keys() - original_state)
         )
 
     @contextmanager
@@ -71,14 +88,18 @@ class TraceStack:
         """
         Checks at the end of the context that everything requiring manual init was manually inited.
         """
+        # the fresh values first: an initializer that raises must not leave a frame pushed and some fields reset
+        fresh_values = {
+            stack_item: initializer()
+            for stack_item, initializer in self._stack_item_initializers.items()
+        }
         self._stack.append(
             tuple(
                 self._manager.__dict__[stack_item]
                 for stack_item in self._stack_item_names()
             )
         )
-        for stack_item, initializer in self._stack_item_initializers.items():
-            self._manager.__dict__[stack_item] = initializer()
+        self._manager.__dict__.update(fresh_values)
         for stack_item in self._stack_items_with_manual_initialization:
             del self._manager.__dict__[stack_item]
         yield
